@@ -115,5 +115,11 @@ pub fn arr_bits_eq<T: Flt, D: ndarray::Dimension>(
     a: &ndarray::ArrayBase<impl ndarray::Data<Elem = T>, D>,
     b: &ndarray::ArrayBase<impl ndarray::Data<Elem = T>, D>,
 ) -> bool {
-    a.shape() == b.shape() && a.iter().zip(b.iter()).all(|(x, y)| x.bits() == y.bits())
+    a.shape() == b.shape() && a.iter().zip(b.iter()).all(|(x, y)| same_bits(*x, *y))
+}
+
+/// identical bit patterns; two NaNs count as the same whatever their sign and payload
+#[allow(clippy::eq_op)]
+pub fn same_bits<T: Flt>(x: T, y: T) -> bool {
+    x.bits() == y.bits() || (x != x && y != y)
 }
